@@ -1,6 +1,7 @@
 """Engine A driver: installs the symbolic environment into the imported pyins modules (this
 process only), discharges batches of obligations with z3 in a fork pool, triages `sat` answers
 with the true functions, optional second opinion from the system z3 through SMT-LIB2."""
+import json
 import fractions
 import math
 import multiprocessing as mp
@@ -516,6 +517,12 @@ class AReport:
                     raise KeyError('mod of non-rational')
                 f = S.val(c0)
                 v = S.rat(f - Fr(d[2]) * math.floor(f / Fr(d[2])))
+            elif d[0] == 'fmod':
+                c0 = subst(d[1])
+                if not z3.is_rational_value(c0):
+                    raise KeyError('fmod of non-rational')
+                f = S.val(c0)
+                v = S.rat((abs(f) - Fr(d[2]) * math.floor(abs(f) / Fr(d[2]))) * (1 if f >= 0 else -1))
             elif d[0] == 'value':
                 raise KeyError('named value')
             else:
@@ -627,6 +634,11 @@ class AReport:
             full.append(sp)
         if not full:
             return
+        dump = os.environ.get('PVF_DUMP_SELFCHECK')
+        if dump:
+            old = json.load(open(dump)) if os.path.exists(dump) else []
+            with open(dump, 'w') as f:
+                json.dump(old + full, f, default=str)
         res = common.run_replays(full, timeout=900)
         bad = 0
         for sp, r in zip(full, res):
